@@ -1020,19 +1020,22 @@ class ExcelCompiler:
                         # from, a formula stored without one (eg: "") is calced
                         cell_todos.append(precedent_address.address)
 
-            # calc the values for ranges
-            for range_todo in reversed(self.range_todos):
-                self._evaluate_range(range_todo)
-            for cell_todo in cell_todos:
+            def calc(evaluate, address):
                 try:
-                    self._evaluate(cell_todo)
+                    evaluate(address)
                 except Exception:
-                    # the stored results calculated from a cell which can
-                    # not be calculated are not results of this model
-                    failed = self.cell_map[cell_todo]
+                    # the stored results calculated from a cell or range
+                    # which can not be calculated are not results of this model
+                    failed = self.cell_map[address]
                     for dependant in self.dep_graph.successors(failed):
                         self._reset(dependant)
                     raise
+
+            # calc the values for ranges
+            for range_todo in reversed(self.range_todos):
+                calc(self._evaluate_range, range_todo)
+            for cell_todo in cell_todos:
+                calc(self._evaluate, cell_todo)
         finally:
             # also when connecting the graph failed: a range that can not be
             # evaluated would fail every later graph construction
